@@ -2,6 +2,7 @@ package rules
 
 import (
 	"fmt"
+	"go/types"
 	"os"
 	"go/token"
 	"sort"
@@ -1014,21 +1015,40 @@ func lengthEstablishedByEarlierCall(p *ana.Prog, ts *ana.TaintState, f *ssa.Func
 					}
 					// no other write to the variable between g and f
 					al, _ := arg.(*ssa.Alloc)
-					s := &ana.Search{Fn: caller, NoFacts: true, Stop: func(x ssa.Instruction) bool { return x == c.(ssa.Instruction) }, Target: func(x ssa.Instruction) bool {
-						ap := ana.AccessPath(arg)
+					ap := ana.AccessPath(arg)
+					isWriter := func(x ssa.Instruction) bool {
+						if x == ssa.Instruction(gc) || x == c.(ssa.Instruction) {
+							return false
+						}
 						if st, ok := x.(*ssa.Store); ok && (st.Addr == arg || (al != nil && st.Addr == ssa.Value(al)) || (ap != "" && ana.AccessPath(st.Addr) == ap)) {
 							return true
 						}
-						if cc, ok := x.(ssa.CallInstruction); ok && x != ssa.Instruction(gc) && x != c.(ssa.Instruction) {
+						if cc, ok := x.(ssa.CallInstruction); ok {
 							for _, a2 := range cc.Common().Args {
-								if a2 == arg || (ap != "" && ana.AccessPath(a2) == ap) {
+								_, isPtr := a2.Type().Underlying().(*types.Pointer)
+								if a2 == arg || (isPtr && ap != "" && ana.AccessPath(a2) == ap) {
 									return true
 								}
 							}
 						}
 						return false
-					}}
-					if found, _ := s.Run(gc); !found {
+					}
+					// a writer is harmful only if the call site can be reached from it without passing the establishing call again
+					found := false
+					var w []string
+					ana.Instrs(caller, func(x ssa.Instruction) {
+						if found || !isWriter(x) {
+							return
+						}
+						s := &ana.Search{Fn: caller, NoFacts: true, Stop: func(y ssa.Instruction) bool { return y == ssa.Instruction(gc) }, Target: func(y ssa.Instruction) bool { return y == c.(ssa.Instruction) }}
+						if f2, w2 := s.Run(x); f2 {
+							found, w = true, w2
+						}
+					})
+					if os.Getenv("C08_DEBUG") != "" {
+						fmt.Println("DEBUG idiom between-search", ana.FuncName(caller), found, w)
+					}
+					if !found {
 						okSite = true
 						est = ana.Short(ana.CalleeName(&gc.Call))
 					}
